@@ -67,12 +67,23 @@ def handle (op : String) (j : Json) : Except String Json := do
     pure (reply (f (gs.map (toLocal isz))) (some (f (gs.map (specToLocal isz)))))
   | "pileup" | "mask" =>
     let ivs ← getIvs j
+    let path := (getStr j "path").toOption.getD "mem"
+    let via := (getStr j "via").toOption.getD "genome"
     let mk := maskData ign ivs
-    let f := fun (d : List (List Nat)) => Json.mkObj [("chroms", natListList d)]
-    let m := (if op == "pileup" then pileupGlobal isz mk else maskGlobal isz mk).map (toDict isz)
+    -- the observation: per-chromosome arrays + the genome-wide quantities of the whole track
+    let obs := fun (chroms : List (List Nat)) (dense : List Nat) =>
+      Json.mkObj ([("chroms", natListList chroms), ("sum", nat dense.sum), ("zeros", nat (zerosOf dense)),
+        ("hist", if op == "pileup" then natList (histOf dense) else Json.null)]
+        ++ (if path == "mem" then [("gsize", nat dense.length)] else [])
+        ++ (if path == "mem" && via == "geometry" && op == "mask" then [("glob", natList dense)] else []))
+    let m := if path == "mem" then
+        (if op == "pileup" then pileupGlobal isz mk else maskGlobal isz mk).map (fun d => obs (toDict isz d) d)
+      else
+        let chroms := if op == "pileup" then pileupStream isz mk else maskStream isz mk
+        some (obs chroms chroms.flatten)
     let sp := specMask ign ivs
-    let s := (List.range n).map (fun c => if op == "pileup" then specPileupChrom isz sp c else specMaskChrom isz sp c)
-    pure (reply (optJ f m) (some (f s)))
+    let sc := (List.range n).map (fun c => if op == "pileup" then specPileupChrom isz sp c else specMaskChrom isz sp c)
+    pure (reply (optJ id m) (some (obs sc sc.flatten)))
   | "merge" =>
     let ivs ← getIvs j
     let d ← getNat j "d"
